@@ -7,6 +7,7 @@ from .stubexec import run_source
 
 
 FROZENSET_GLOB = ("glob", "builtins", "frozenset")
+BYTEARRAY_GLOB = ("glob", "builtins", "bytearray")  # BYTEARRAY8 has no literal form either
 
 
 class Decompiled:
@@ -235,8 +236,8 @@ def _value_mismatch(o, ex, result_name):
     # side but necessarily a `frozenset(...)` expression in source, so calls of the
     # frozenset constructor are not counted in the equality (the value comparison
     # above still sees every frozenset).
-    vc = Counter({e: n for e, n in vc.items() if e[1] != FROZENSET_GLOB})
-    sc = Counter({e: n for e, n in sc.items() if e[1] != FROZENSET_GLOB})
+    vc = Counter({e: n for e, n in vc.items() if e[1] not in (FROZENSET_GLOB, BYTEARRAY_GLOB)})
+    sc = Counter({e: n for e, n in sc.items() if e[1] not in (FROZENSET_GLOB, BYTEARRAY_GLOB)})
     if vc != sc:
         extra = missing(sc, vc)
         lack = missing(vc, sc)
